@@ -238,7 +238,7 @@ def ob_select_race(report, prop):
 def ob_send_stream_drop(report, prop):
     def body(ob):
         ex = e2.executor('anemo', [], max_depth=1)
-        fns = [f for f in find_fns(ex.prog, r'^connection::<impl>::drop$') if 'SendStream' in f.decl.get(f.args[0], '')]
+        fns = [f for f in find_fns(ex.prog, r'(^|::)<impl>::drop$') if re.search(r'&mut (\w+::)*SendStream$', f.decl.get(f.args[0], '').strip()) and 'quinn' not in f.decl.get(f.args[0], '')]      # wherever the wrapper lives
         if len(fns) != 1:
             return ob.done([ex], 'inconclusive', 'SendStream::drop not found', paths=0)
         res = ex.run(fns[0], [])
